@@ -148,6 +148,18 @@ func (e *Engine) VerifyFunctionAs(fn *ssa.Function, c *Contract, panics bool, pr
 		return res
 	}
 	retv, fin := r.mergeReturns()
+	for k, v := range fin.Ghost {
+		if v != nil && v.Sort.Kind != SArr {
+			rt.watch = append(rt.watch, leaf{"final." + k, v})
+		}
+	}
+	for _, nm := range []string{"kind", "a", "c", "d", "e"} {
+		if arr, ok := fin.Ghost["trace."+nm]; ok && arr != nil {
+			for i := 0; i < 4; i++ {
+				rt.watch = append(rt.watch, leaf{fmt.Sprintf("final.trace.%s[%d]", nm, i), tb.Select(arr, tb.BVI(64, int64(i)))})
+			}
+		}
+	}
 	// vacuity guard: some return is reachable
 	rt.obls = append(rt.obls, &Obligation{Name: e.relName(fn) + ":cover:return#1", Func: e.relName(fn), Kind: "cover", Hyps: append(append([]*Term{}, rt.facts...), fin.PC), Goal: tb.True(), Cover: true, Pos: e.pos(fn.Pos()), Text: "a return is reachable"})
 	if c == nil {
@@ -173,20 +185,15 @@ func (e *Engine) VerifyFunctionAs(fn *ssa.Function, c *Contract, panics bool, pr
 		r.frameObligations(fin, st, env)
 	}
 	if len(c.Emits) > 0 && ifaceKey == "" {
-		hasTrace := false
-		for _, cl := range c.Ensures {
-			if isTraceClause(cl.E) {
-				hasTrace = true
-			}
-		}
-		if hasTrace {
+		if c.ExactEmits {
 			// the summary events callers record for this function must be exactly its own activation trace
 			shadow := fin.Clone()
 			shadow.Ghost["trace.len"] = tb.BVI(64, 0)
-			for _, n := range []string{"kind", "a", "b", "c", "d"} {
+			for _, n := range []string{"kind", "a", "b", "c", "d", "e", "f", "g", "h"} {
 				delete(shadow.Ghost, "trace."+n)
 				shadow.Ghost["trace."+n] = tb.Var("G0:emits."+n, WordAr)
 			}
+			shadow.Ghost["trace.arr"] = tb.Var("G0:emits.arr", ObjAr)
 			envS := env2.child()
 			envS.cur = shadow
 			envF := env2.child()
@@ -199,12 +206,15 @@ func (e *Engine) VerifyFunctionAs(fn *ssa.Function, c *Contract, panics bool, pr
 			nEm := len(c.Emits)
 			for i := 0; i < nEm; i++ {
 				k := tb.BVI(64, int64(i))
-				for _, n := range []string{"kind", "a", "b", "c", "d"} {
+				for _, n := range []string{"kind", "a", "b", "c", "d", "e", "f", "g", "h"} {
 					sa := shadow.Ghost["trace."+n]
 					if sa.Op != "store" {
 						continue // slot never written by the declared events
 					}
 					conj = append(conj, tb.Eq(tb.Select(r.e.ghost(fin, "trace."+n, WordAr), k), tb.Select(sa, k)))
+				}
+				if sa := shadow.Ghost["trace.arr"]; sa.Op == "store" {
+					conj = append(conj, tb.Eq(tb.Select(r.e.ghost(fin, "trace.arr", ObjAr), k), tb.Select(sa, k)))
 				}
 			}
 			r.oblige(fin, "emits", "", tb.And(conj...), fn.Pos(), "declared emits equal the function's own activation trace", nil)
@@ -236,6 +246,7 @@ func (r *FnRun) typeInvariant(v Val, t types.Type) {
 		if x.Cap != nil {
 			r.addFact(tb.And(tb.SLe(x.Len, x.Cap), tb.SLt(x.Cap, lim)))
 			r.addFact(tb.Implies(tb.Eq(x.Base, zero), tb.Eq(x.Cap, zero)))
+			r.addFact(tb.Not(tb.App("rodata", BoolSort, x.Base)))
 		} else {
 			r.addFact(tb.Implies(tb.Eq(x.Base, zero), tb.Eq(x.Len, zero)))
 		}
@@ -859,7 +870,12 @@ func (r *FnRun) storeMods(addr ssa.Value, li *loopInfo, seenLocal map[*ssa.Alloc
 		}
 		if sl, ok := a.X.Type().Underlying().(*types.Slice); ok {
 			if isByteSlice(a.X.Type()) {
-				return []ModTarget{{Kind: "BH"}, {Kind: "M"}}
+				if v, ok := r.vals[a.X]; ok {
+					if sv, isS := v.(SliceV); isS && sv.Raw {
+						return []ModTarget{{Kind: "M"}}
+					}
+				}
+				return []ModTarget{{Kind: "BH"}}
 			}
 			return []ModTarget{{Kind: "heaptype", ObjT: sl.Elem()}}
 		}
@@ -970,9 +986,10 @@ func (r *FnRun) applyLoopHavoc(cur, pre *State, mods []ModTarget, li *loopInfo) 
 	// trace: havoc arrays and length when events may be emitted in the loop
 	for _, m := range mods {
 		if m.Kind == "trace" || m.Kind == "all" {
-			for _, n := range []string{"kind", "a", "b", "c", "d"} {
+			for _, n := range []string{"kind", "a", "b", "c", "d", "e", "f", "g", "h"} {
 				cur.Ghost["trace."+n] = tb.Fresh("G:trace."+n, WordAr)
 			}
+			cur.Ghost["trace.arr"] = tb.Fresh("G:trace.arr", ObjAr)
 			cur.Ghost["trace.len"] = tb.Fresh("G:trace.len", BV64)
 			break
 		}
